@@ -417,6 +417,26 @@ func replayFile(t *testing.T, prop, path string) {
 		fmt.Println(`REPLAY-RESULT {"reproduced":false,"identical_trace":false,"diverged":"","signature":"work-in-proportion/spin","outcome":"finished"}`)
 		return
 	}
+	// VERIF_SEARCH=n (debugging aid, never used by the checks): run the file's scenario under n fresh schedules of
+	// its own policy kind and count how often the signature shows - for telling, after the code has changed, whether
+	// the behaviour behind an old replay file is still reachable
+	if n := envInt("VERIF_SEARCH", 0); n > 0 {
+		hits, first := 0, int64(-1)
+		for k := int64(0); k < n; k++ {
+			ps := rf.Scenario.Policy
+			ps.Seed = splitmix64(ps.Seed + uint64(k)*0x9e3779b97f4a7c15)
+			res := RunScenario(t, rf.Scenario, simrt.NewPolicy(ps), true)
+			if v := hasSig(res, rf.Property, rf.Signature); v != nil {
+				hits++
+				if first < 0 {
+					first = k
+					fmt.Println("SEARCH first hit:", v.Msg)
+				}
+			}
+		}
+		fmt.Printf("SEARCH-RESULT schedules=%d hits=%d first=%d signature=%s\n", n, hits, first, rf.Signature)
+		return
+	}
 	// VERIF_LENIENT=1 (debugging aid, never used by the checks): follow the tape as far as it fits and
 	// continue under the default policy - for looking at an old replay file after the code has changed
 	res := RunScenario(t, rf.Scenario, &simrt.Replay{Tape: rf.Tape, Sel: rf.Selects, Strict: os.Getenv("VERIF_LENIENT") == ""}, true)
